@@ -1,9 +1,13 @@
 #!/bin/sh
-# check.sh <PROP> <quick|thorough>: (re)builds the engine if needed and runs
+# check.sh <PROP> <quick|thorough> | check.sh selftest: (re)builds the engine if needed and runs
 # every harness of the property against /repo's current working tree.
 cd "$(dirname "$0")"
 if [ ! -x bin/gosmt ] || [ -n "$(find engine -name '*.go' -newer bin/gosmt 2>/dev/null | head -1)" ]; then
   ./build.sh || { echo "ENGINE-ERROR cannot build gosmt"; exit 3; }
 fi
 # the engine's go/packages loader must see go1.26.8 first
+if [ "$1" = selftest ]; then
+  # validates the reference models (the harnesses' oracles) against x/net's hpack package
+  PATH=/opt/veriftools/go1.26.8/bin:$PATH exec ./bin/gosmt selftest
+fi
 PATH=/opt/veriftools/go1.26.8/bin:$PATH exec ./bin/gosmt check "$1" --tier "${2:-quick}"
